@@ -67,6 +67,8 @@ type Dataset struct {
 	Footer  string
 	// ModuleAux: the file carries module aux data (refused or skipped by policy)
 	ModuleAux bool
+	// Many: the file carries a listpack of >= 65535 elements
+	Many bool
 }
 
 func (g *Gen) lenForm(n int) string {
@@ -737,6 +739,7 @@ func (g *Gen) File(o FileOpts) *Dataset {
 	g.used = map[string]bool{}
 	ds := &Dataset{}
 	g.bigLeft, g.hugeLeft = 0, 0
+	ds.Many = o.Many != ""
 	if g.R.Chance(1, 8) {
 		g.bigLeft = 1
 	}
